@@ -33,7 +33,7 @@ def sig_of(tr, idx, status, steps):
         rk[0].get("obs", {}).get("disknumrecs") if rk else None, status)
 
 
-def run_mp(pid, tier, seed, execs, cfg, mc, rule, extra=None, env=None):
+def run_mp(pid, tier, seed, execs, cfg, mc, rule, extra=None, env=None, sink=None):
     bld = vlib.build("dbg")
     header = lambda evs: {"np": max([len(e.get("rk", [])) for e in evs if "rk" in e] + [1])}
     # one trace file per process count (N is a constant of the specification)
@@ -47,6 +47,8 @@ def run_mp(pid, tier, seed, execs, cfg, mc, rule, extra=None, env=None):
         nacc += len(acc)
         states += st
         nrej += len(rej)
+        if sink is not None:
+            sink.update({x: r.get("events") for x, r in res.items()})
         byx = {e["x"]: e for e in lst}
         for x, idx, tail, r2 in vlib.confirm(bld, lst, rej, MODULE, cfg, **kw):
             tr = res[x]["events"]
